@@ -133,17 +133,36 @@ def run(chk):
         N = rng.randint(2, 30)
         xs = [rng.choice("ABCDEFG"[:K]) * rng.randint(1, 2) for _ in range(N)]
         ys = [rng.choice("ABCDEFG"[:K]) * rng.randint(1, 2) for _ in range(rng.randint(1, 20))]
+        if _ % 6 == 5:
+            # very unequal sample sizes, the larger one holding elements the smaller one lacks
+            xs = [rng.choice("ABCDEFG") for _i in range(rng.randint(40, 90))]
+            ys = [rng.choice("AB") for _i in range(rng.randint(1, 4))]
+            N = len(xs)
+            if _ % 12 == 5:
+                xs, ys = ys + ys + ["A", "A"], xs
+                N = len(xs)
         ops += [{"op": "pc1", "xs": xs}, {"op": "pc2", "as": xs, "bs": ys}, {"op": "counts", "xs": xs}]
         reals.append((core.call_real(lambda: float(st.pc(xs))), core.call_real(lambda: float(st.pc(xs, ys))),
                       core.call_real(lambda: float(st.stdpc(xs)) if N >= 4 else None)))
         metas.append((xs, ys))
+        # the same samples with TUPLE-valued elements (paired-chain clonotypes held in a Series): same counts, same estimates
+        import pandas as _pdt
+        tx, ty = _pdt.Series([(x, len(x)) for x in xs]), _pdt.Series([(y, len(y)) for y in ys])
+        rt = (core.call_real(lambda: float(st.pc(tx))), core.call_real(lambda: float(st.pc(tx, ty))),
+              core.call_real(lambda: float(st.stdpc(tx)) if N >= 4 else None))
+        chk.count("sample:series-of-tuples")
+        same_ = lambda a_, b_: a_ == b_ or (a_[0] == b_[0] == "ok" and a_[1] is not None and b_[1] is not None and (math.isnan(a_[1]) and math.isnan(b_[1]) or abs(a_[1] - b_[1]) <= 1e-12))  # noqa
+        if not all(same_(a_, b_) for a_, b_ in zip(rt, reals[-1])):
+            chk.violation("C06|series-of-tuples|differs", "pc / stdpc of a Series whose elements are tuples differ from the estimates for the same sample "
+                          "with string elements (the counts are the same)", {"xs": xs, "ys": ys, "tuples": str(rt), "strings": str(reals[-1])})
     ans = core.run_driver_parallel(ops)
     for i, ((r1, r2, r3), (xs, ys)) in enumerate(zip(reals, metas)):
         a1, a2, a3 = ans[3 * i], ans[3 * i + 1], ans[3 * i + 2]
         chk.case(nontrivial_key=("sample", tuple(xs), tuple(ys)))
         w1, w2 = float(Fraction(a1[1])), float(Fraction(a2[1]))
         if r1 != ("ok", w1) or r2 != ("ok", w2):
-            chk.broken_obligations.append(f"corr:pc~pc1/pc2 differs on xs={xs} ys={ys}: real={r1},{r2} model={w1},{w2}")
+            chk.violation("C06|pc|not-the-pair-fraction", "pc differs on this sample from the pair-counting estimator that the unbiasedness theorems "
+                          f"are proved for (real one-sample {r1}, two-sample {r2}; proved estimator {w1}, {w2})", {"xs": xs, "ys": ys})
             break
         if r3[0] == "ok" and r3[1] is not None and not math.isnan(r3[1]):
             want = core.call_real(lambda: float(st.stdpc_n(np.array(a3[1]))))
@@ -226,8 +245,9 @@ def run(chk):
                   ("categorical-series", lambda K: ["CAS", "CAT", "CQ", "CW"][:K], lambda l: pd.Series(l).astype("category"))]
     for gi, ((K, p), (_, q)) in enumerate([(grids[0], grids[1]), (grids[2], grids[3])] * 4):
         lname, mk, cont = label_sets[gi // 2]
-        for N1, N2 in [(1, 1), (2, 3), (3, 2)]:
+        for N1, N2 in [(1, 1), (2, 3), (3, 2)] + ([(1, 9), (10, 1)] if gi == 0 else []):      # (also very unequal sample sizes)
             tot = Fraction(0)
+            bad_val = None
             letters = mk(K)
             for xs in itertools.product(range(K), repeat=N1):
                 for ys in itertools.product(range(K), repeat=N2):
@@ -237,7 +257,13 @@ def run(chk):
                     for i in ys:
                         w *= q[i]
                     val = st.pc(cont([letters[i] for i in xs]), cont([letters[i] for i in ys]))
+                    if not math.isfinite(float(val)):
+                        bad_val = bad_val or ([letters[i] for i in xs], [letters[i] for i in ys], float(val))
+                        continue
                     tot += w * Fraction(float(val)).limit_denominator(10 ** 6)
+            if bad_val:
+                chk.violation("C06|pc2|not-finite", f"pc(a, b) = {bad_val[2]} for two non-empty samples", {"a": bad_val[0], "b": bad_val[1]})
+                continue
             want = sum(a * b for a, b in zip(p, q))
             chk.case(nontrivial_key=("E2", lname, N1, N2, tuple(p), tuple(q)))
             chk.count("oracle:E[pc(a,b)]")
